@@ -514,7 +514,10 @@ class Exec:
             if k in tgt: continue
             if k in before and before[k] is not v:
                 raise Unsupported("loop over a symbolic-length list updates %s" % k, st, env.get('__path__'))
-        if len(s.ext_writes) != nw: raise Unsupported("loop over a symbolic-length list writes to the heap", st)
+        if len(s.ext_writes) != nw:
+            u = Unsupported("loop over a symbolic-length list writes to the heap: %s" % (s.ext_writes[-1][1],), st, env.get('__path__'))
+            u.frame_write = s.ext_writes[-1][1]         # the write itself is certain (every element of a non-empty list): frame-sensitive checks report it
+            raise u
         for c in ast.walk(st):
             if isinstance(c, ast.Call) and isinstance(c.func, ast.Attribute) and c.func.attr in _MUTATORS:
                 raise Unsupported("mutation inside a loop over a symbolic-length list", st)
@@ -765,7 +768,10 @@ class Exec:
             env2 = dict(env); s.assign(g.target, v, env2); return s.eval(e.elt, env2)
         if isinstance(it, _Range):
             if isinstance(it.n, int): return PList([elt(i) for i in range(it.start, it.n)])
-            if it.start != 0: raise Unsupported("range start in comprehension", e)
+            if it.start != 0:
+                if not isinstance(it.start, int): raise Unsupported("symbolic range start in comprehension", e)
+                st_ = it.start
+                return s.eager_seq(lift(it.n) - st_, lambda i: elt(lift(i) + st_), e)      # element j of the list is the body at start + j
             return s.eager_seq(it.n, lambda i: elt(i), e)
         if isinstance(it, PList): return PList([elt(v) for v in it.items])
         if isinstance(it, (list, tuple)): return PList([elt(v) for v in it])
@@ -1004,6 +1010,8 @@ class Exec:
                 r = a is b if not (isinstance(a, (int, str)) and isinstance(b, (int, str))) else a == b
             return r if isinstance(op, ast.Is) else not r
         if isinstance(op, (ast.In, ast.NotIn)):
+            if isinstance(b, dict) and b and _has_term(a) and a not in b:
+                raise Unsupported("membership test of a symbolic key in a non-empty dict", node)
             if isinstance(b, (set, frozenset, tuple, list, dict)) and not isinstance(a, (T, B)):
                 r = a in b
                 return r if isinstance(op, ast.In) else not r
@@ -1051,6 +1059,12 @@ class Exec:
             fs.append(tob(r))
         r = band(*fs)
         return r.a[0] if r.op == 'lit' else r
+
+
+def _has_term(v):
+    if isinstance(v, (T, B)): return True
+    if isinstance(v, (tuple, list)): return any(_has_term(x) for x in v)
+    return False
 
 
 class _NoFork(Exception):
@@ -1271,7 +1285,7 @@ def _np_vstack(s, rows):
 
 
 def _np_power(s, x, n):
-    if isinstance(n, T) and not ir.isc(n): raise Unsupported("numpy.power with a symbolic exponent")
+    # symbolic exponent: x**n = exp(n log x) with the base > 0 side condition of binop (the base <= 0 exit is recorded as abnormal)
     return s.binop(ast.Pow(), x, n)
 
 
@@ -1296,7 +1310,8 @@ def _ext(name):
     return g
 
 
-NUMPY = {'exp': _vecmap(_exp1), 'log': _vecmap(_log1), 'sqrt': _vecmap(_sqrt1), 'array': _np_array,
+NUMPY = {'isfinite': (lambda s, x: True),        # real-number model: every value is finite (overflow is outside the model; C18's native corpus looks at it)
+         'exp': _vecmap(_exp1), 'log': _vecmap(_log1), 'sqrt': _vecmap(_sqrt1), 'array': _np_array,
          'multiply': _np_bin(ast.Mult), 'subtract': _np_bin(ast.Sub), 'divide': _np_bin(ast.Div), 'add': _np_bin(ast.Add),
          'power': _np_power, 'sum': _np_sum, 'ones': _np_ones, 'vstack': _np_vstack, 'searchsorted': lambda s, *a, **k: _ext('numpy.searchsorted')(s, *a, **k), 'arange': _np_arange}
 
@@ -1436,6 +1451,7 @@ BUILTINS = {'float': _float, 'int': _int, 'round': _round, 'getattr': _getattr, 
             'abs': _abs, 'max': _minmax(tmax, max), 'min': _minmax(tmin, min), 'list': _list, 'set': _set, 'copy': _copy,
             'filter': _filter, 'print': lambda s, *a, **k: None, 'str': lambda s, *a: (str(a[0]) if len(a) == 1 and isinstance(a[0], (int, str)) and not isinstance(a[0], bool) else Opaque("str")),
             'tuple': lambda s, x: tuple(x.items) if isinstance(x, PList) else tuple(x),
+            'dict': lambda s: PDict(),
             'hash': lambda s, *a: (s.contracts['__fixed_clock__'] if s.contracts.get('__fixed_clock__') is not None else Opaque("hash")), 'type': lambda s, x: _type_of(s, x), 'open': lambda s, *a, **k: _open(s, *a, **k)}
 
 
@@ -1473,6 +1489,10 @@ def explore(src, runner, contracts=None, pre=(), max_paths=400, setup=None):
             ex.raise_node = r.node
         except Ret as r:
             v = r.v; oc = 'return'
+        except TypeError as e:
+            # an uninterpreted (opaque) value reached arithmetic: the code is outside the modelled subset here (no verdict, not a crash)
+            if 'cannot lift' in str(e): raise Unsupported("an uninterpreted value is used as a number (%s)" % e)
+            raise
         for i in range(len(oracle), len(ex.taken)):
             t = ex.taken[i]
             if isinstance(t, tuple): continue          # forced: sibling infeasible
